@@ -20,6 +20,7 @@ import (
 	"go/token"
 	"go/types"
 	"os"
+	"os/exec"
 	"path/filepath"
 	"sort"
 	"strconv"
@@ -154,6 +155,12 @@ func main() {
 			fatal(fmt.Errorf("unknown export package %s", pkg))
 		}
 		overlay[filepath.Join(*repo, dir, filepath.Base(f))] = f
+	}
+	// T-delay: a point in the ttrpc client between sending a request and waiting for its answer at
+	// which the harness can hold the calling goroutine (a schedule in which that goroutine is
+	// preempted there); 0 by default = unchanged behaviour
+	if err := ttrpcDelay(*repo, *out, overlay); err != nil {
+		fatal(err)
 	}
 	ov, _ := json.MarshalIndent(map[string]any{"Replace": overlay}, "", " ")
 	ovPath := filepath.Join(*out, "overlay.json")
@@ -582,4 +589,43 @@ func (in *inst) rangeMap(r *ast.RangeStmt) {
 	r.X = vs("MapOrder", r.X)
 	in.needVs = true
 	count(in.rel, "T-map")
+}
+
+func ttrpcDelay(repo, out string, overlay map[string]string) error {
+	cmd := exec.Command("go", "list", "-m", "-f", "{{.Dir}}", "github.com/containerd/ttrpc")
+	cmd.Dir = repo
+	cmd.Env = append(os.Environ(), "GOFLAGS=-mod=mod", "GOPROXY=off", "GOSUMDB=off", "GOTOOLCHAIN=local")
+	o, err := cmd.Output()
+	if err != nil {
+		return fmt.Errorf("locating the ttrpc module: %v", err)
+	}
+	dir := strings.TrimSpace(string(o))
+	src, err := os.ReadFile(filepath.Join(dir, "client.go"))
+	if err != nil {
+		return err
+	}
+	anchor := "\tdefer c.deleteStream(s)\n\n\tvar msg *streamMessage\n\tselect {\n\tcase <-ctx.Done():"
+	if strings.Count(string(src), anchor) != 1 {
+		return fmt.Errorf("T-delay: the dispatch function of ttrpc's client.go does not look as expected (anchor found %d times)", strings.Count(string(src), anchor))
+	}
+	patched := strings.Replace(string(src), anchor, "\tdefer c.deleteStream(s)\n\n\tverifDispatchDelay()\n\tvar msg *streamMessage\n\tselect {\n\tcase <-ctx.Done():", 1)
+	patched += `
+
+// VerifDispatchDelayNS, when positive, holds a calling goroutine for that long between sending
+// its request and waiting for the answer (verification overlay; never part of ttrpc). Set it
+// before any client is in use.
+var VerifDispatchDelayNS int64
+
+func verifDispatchDelay() {
+	if d := VerifDispatchDelayNS; d > 0 {
+		time.Sleep(time.Duration(d))
+	}
+}
+`
+	dst := filepath.Join(out, "ttrpc__client.go")
+	if err := os.WriteFile(dst, []byte(patched), 0o644); err != nil {
+		return err
+	}
+	overlay[filepath.Join(dir, "client.go")] = dst
+	return nil
 }
